@@ -1036,6 +1036,10 @@ func (p *Parser[V]) parseLet(tokenizer *Tokenizer, idents Identifiers[V]) (AST, 
 }
 
 func (p *Parser[V]) parseExpression(tokenizer *Tokenizer, constants Identifiers[V]) (AST, error) {
+	if len(p.operators) == 0 {
+		// no binary operators declared
+		return p.parseUnary(tokenizer, constants)
+	}
 	return p.parseOp(tokenizer, 0, constants)
 }
 
